@@ -6,6 +6,7 @@ import (
 	"strings"
 	"sync"
 	"sync/atomic"
+	"time"
 
 	"github.com/IrineSistiana/mosproxy/verif/internal/racelog"
 )
@@ -62,3 +63,39 @@ func parallelFor(n, workers int, stop func() bool, fn func(i int)) {
 	}
 	wg.Wait()
 }
+
+// lagMonitor measures how late a 20 ms timer fires in this process. The cache properties speak
+// about real time (lifetimes with a 1 s clock granularity); when the machine is so overloaded
+// that timers fire hundreds of milliseconds late, the proxy's own coarse cache clock lags as
+// well and "still alive" / "already expired" verdicts stop being sound. Checks turn
+// lifetime-dependent candidates into inconclusive cases when overloaded() reports true.
+type lagMonitor struct {
+	max  atomic.Int64
+	stop chan struct{}
+}
+
+func startLagMonitor() *lagMonitor {
+	m := &lagMonitor{stop: make(chan struct{})}
+	go func() {
+		for {
+			t0 := time.Now()
+			select {
+			case <-m.stop:
+				return
+			case <-time.After(20 * time.Millisecond):
+			}
+			lag := int64(time.Since(t0) - 20*time.Millisecond)
+			for {
+				cur := m.max.Load()
+				if lag <= cur || m.max.CompareAndSwap(cur, lag) {
+					break
+				}
+			}
+		}
+	}()
+	return m
+}
+
+func (m *lagMonitor) Max() time.Duration { return time.Duration(m.max.Load()) }
+func (m *lagMonitor) Stop()             { close(m.stop) }
+func (m *lagMonitor) overloaded() bool  { return m.Max() > 300*time.Millisecond }
